@@ -30,16 +30,20 @@ Print Assumptions C08_validation_unchanged.
 Theorem C08_always_miss : forall types s k s' r, True -> c_load always_miss s k = (s', r) ->
   True /\ match r with Some v => entry_ok types k v | None => True end.
 Proof. exact always_miss_lossy. Qed.
+Print Assumptions C08_always_miss.
 Theorem C08_unbounded_map : forall types s k s' r, all_ok types s -> c_load unbounded_map s k = (s', r) ->
   all_ok types s' /\ match r with Some v => entry_ok types k v | None => True end.
 Proof. exact map_lossy. Qed.
+Print Assumptions C08_unbounded_map.
 Theorem C08_unbounded_map_store : forall types s k v, all_ok types s -> entry_ok types k v -> all_ok types (c_store unbounded_map s k v).
 Proof. exact map_store_ok. Qed.
+Print Assumptions C08_unbounded_map_store.
 Theorem C08_lru_any_capacity : forall cap types s k s' r, all_ok types s -> c_load (lru_cache cap) s k = (s', r) ->
   all_ok types s' /\ match r with Some v => entry_ok types k v | None => True end.
 Proof. exact lru_lossy. Qed.
 Theorem C08_lru_store : forall cap types s k v, all_ok types s -> entry_ok types k v -> all_ok types (c_store (lru_cache cap) s k v).
 Proof. exact lru_store_ok. Qed.
+Print Assumptions C08_lru_store.
 Print Assumptions C08_lru_any_capacity.
 
 (* the tag name requested in the call decides: the key carries it *)
